@@ -65,8 +65,45 @@ LABEL_SETS = [
 ]
 
 
+def _node_identifier():
+    """The string `export` compares `grid_function.space.identifier` with to default to node data (read from the
+    source text, so that the harness follows a repair of that comparison)."""
+    import ast
+    from vlib.common import REPO, GenError
+    path = os.path.join(REPO, "bempp_cl", "api", "grid", "io.py")
+    try:
+        with open(path) as f:
+            tree = ast.parse(f.read())
+    except (OSError, SyntaxError) as e:
+        raise GenError(f"cannot parse {path}: {e}")
+    for fn in ast.walk(tree):
+        if isinstance(fn, ast.FunctionDef) and fn.name == "export":
+            for n in ast.walk(fn):
+                if isinstance(n, ast.Compare) and isinstance(n.left, ast.Attribute) and n.left.attr == "identifier" \
+                        and len(n.comparators) == 1 and isinstance(n.comparators[0], ast.Constant) \
+                        and isinstance(n.comparators[0].value, str) and isinstance(n.ops[0], ast.Eq):
+                    return n.comparators[0].value
+    raise GenError("export(): comparison of space.identifier with a string constant not found")
+
+
 def generate(ctx):
-    return {}
+    return {"node_default_identifier": _node_identifier()}
+
+
+class _SpaceStub:
+    def __init__(self, space, identifier):
+        self.identifier = identifier
+        self.grid = space.grid
+
+
+class _FunctionStub:
+    """A grid function whose space reports a chosen identifier (export only reads space.identifier, space.grid and
+    the two evaluate_on_* methods); used to exercise the node default, which no space of the library triggers."""
+
+    def __init__(self, f, identifier):
+        self.space = _SpaceStub(f.space, identifier)
+        self.evaluate_on_vertices = f.evaluate_on_vertices
+        self.evaluate_on_element_centers = f.evaluate_on_element_centers
 
 
 # ------------------------------------------------------------------------------------------------
@@ -361,6 +398,8 @@ def correspondence(ctx):
 
     grids = _grids(ctx, ctx.pick(8, 24))
     exts = [".msh", ".vtu", ".ply", ".obj"]
+    node_ident = _node_identifier()
+    res.stats["node_default_identifier"] = node_ident
     # 1. grids alone, every extension, both binary flags; 'both' and 'neither'
     for gi, (name, V, E, D, labels) in enumerate(grids):
         grid = api.Grid(V, E, D)
@@ -399,13 +438,19 @@ def correspondence(ctx):
             f = _make_function(api, grid, kind, cplx, rng)
             cache[key] = (grid, f, f.evaluate_on_vertices(), f.evaluate_on_element_centers())
         grid, f, vv, cv = cache[key]
-        impl, _ = run_export(filename="x" + ext, grid_function=f, data_type=dt, transformation=_py_transform(tr),
+        ident = f.space.identifier
+        if dt is None and rng.random() < 0.5:
+            ident = node_ident
+        if ident == node_ident:
+            res.count("node_default_cases")
+        fx = f if ident == f.space.identifier else _FunctionStub(f, ident)
+        impl, _ = run_export(filename="x" + ext, grid_function=fx, data_type=dt, transformation=_py_transform(tr),
                              write_binary=b)
         gt = _grid_tokens(grid.vertices, grid.elements, grid.domain_indices)
-        ft = [str(int(f.space.identifier == "p1")), str(int(np.iscomplexobj(vv))), str(vv.shape[0])] \
+        ft = [str(int(ident == node_ident)), str(int(np.iscomplexobj(vv))), str(vv.shape[0])] \
             + _values_tokens(vv) + _values_tokens(cv)
         export_case(dict(mesh=name, labels=list(labels), ext=ext, binary=b, src="gf", space=f"{kind[0]}{kind[1]}",
-                         complex=cplx, data_type=dtname[dt], transformation=tr),
+                         identifier=ident, complex=cplx, data_type=dtname[dt], transformation=tr),
                     " ".join(["ioexport", ext, str(int(b)), "gf", dtname[dt], tr] + gt + ft), impl,
                     1e-13 if tr in INEXACT else 0, cplx and kind in VECTOR)
         res.count("export_gf_cases")
